@@ -711,7 +711,8 @@ class DataIndex(BaseDataIndex, MutableMapping[DataIndexKey, DataIndexEntry]):
             return
 
         entry.loaded = True
-        del self._trie[key]
+        # NOTE: no `del self._trie[key]` first: for a directory without
+        # children that would drop the node from under a running iteration
         self._trie[key] = entry
         self._trie.commit()
 
